@@ -969,6 +969,10 @@ def c05_programs(tier, sd):
         [E(["<", a, b]), S(["==", b, lit(0)])],
         [S(["==", a, lit(1)]), S(["==", b, lit(2)]), S(["==", c, lit(-3)])],                            # no conflict: all honoured
         [["if", [[["==", n, lit(1)], [S(["==", a, lit(2)])]], [["==", n, lit(2)], [S(["==", a, lit(3)])]]], [S(["==", a, lit(4)])]], S(["==", a, lit(5)])],
+        # else-if chains over random conditions (conditions over non-random fields are resolved before the rand sets are formed)
+        [["if", [[["<", b, lit(4)], [S(["==", a, lit(2)])]], [["<", b, lit(8)], [S(["==", a, lit(3)])]], [["<", b, lit(12)], [S(["==", a, lit(6)])]]], [S(["==", a, lit(4)])]], S(["==", a, lit(5)])],
+        [S(["==", a, lit(7)]), ["if", [[["<", b, lit(10)], [S(["==", a, lit(1)])]], [["<", b, lit(20)], [E(["!=", a, lit(3)]), S(["==", a, lit(3)])]]], None]],
+        [["if", [[["<", c, lit(0)], [S(["==", a, lit(2)])]], [["<", b, lit(8)], [["if", [[[">", c, lit(3)], [S(["==", a, lit(9)])]]], [S(["==", a, lit(8)])]]]]], [S(["==", a, lit(4)])]], S(["==", b, lit(3)])],
         # hard statement followed by a soft one inside guarded bodies (and the other way round)
         [["if", [[["<", b, lit(8)], [E([">", b, lit(3)]), S(["==", a, lit(2)])]]], [E(["<", b, lit(12)]), S(["==", a, lit(3)])]], S(["==", a, lit(1)])],
         [["implies", [">", c, lit(0)], [E(["!=", a, lit(0)]), S(["==", a, lit(4)]), E(["!=", b, lit(1)])]], S(["==", a, lit(0)])],
